@@ -36,8 +36,10 @@ RULES = {
     "D1c": R3.rule_D1c,
     "G4c": R3.rule_G4c,
     "W6": R3.rule_W6,
+    "W7": R3.rule_W7,
     "N4": T.rule_N4,
     "N6": N.rule_N6,
+    "N7": N.rule_N7,
     "T8": C.rule_T8,
     "T9": B.rule_T9,
     "T10": B.rule_T10,
@@ -66,6 +68,7 @@ RULES = {
     "W3": S.rule_W3,
     "D6": S.rule_D6,
     "G3": R.rule_G3,
+    "G3b": R.rule_G3b,
     "G4": S.rule_G4,
     "G1c": G.rule_G1c,
     "G1r": G.rule_G1r,
@@ -78,7 +81,7 @@ RULES = {
 
 PROPS = {
     "C01": {
-        "rules": ["T1", "T2", "A5", "T9p", "T12", "D6", "W2"],
+        "rules": ["T1", "T2", "A5", "T9p", "T12", "D6", "W2", "T4", "T6", "N7"],
         "claim": "Decides the wiring clauses of C01, not the computed values: every operator spelling is wired, through the "
         "five tables lexer -> get_definition -> handle_parse_node -> execute_current_instruction -> perform_*, to the "
         "public runtime function and GarnishNumber method the language table gives it; the three dispatch matches "
@@ -86,7 +89,7 @@ PROPS = {
         "(A5: at the host boundary left = popped second; T9p: the builder emits every binary construct left operand first, the two "
         "reviewed right-first constructs Pair and ApplyTo having a runtime reader that takes its first pop as the left value); and every child build node inherits its parent's containing-expression entry, only a "
         "nested expression body and the tree root starting a new one (T12: a reapply re-enters the expression it is written in); and a call "
-        "returns into its caller's frame (D6: push_frame / pop_frame of BasicGarnishData encode and decode the frame chain inversely). Also (W2): a number stored by a program reads back as that number - the hash that alone keys SimpleGarnishData's constant table keeps Integer and Float apart.",
+        "returns into its caller's frame (D6: push_frame / pop_frame of BasicGarnishData encode and decode the frame chain inversely). Also (W2): a number stored by a program reads back as that number - the hash that alone keys SimpleGarnishData's constant table keeps Integer and Float apart. Also, as necessary conditions on what the operators compute: (T4) the logical instructions && || ^^ !! ?? classify every value type with exactly {False, Unit} false and leave a boolean, (T6) the four ordering instructions agree with the comparison table, (N7) no arithmetic method answers 'no result' because an intermediate step of a different operation overflowed.",
     },
     "C02": {
         "rules": ["T3", "T13"],
@@ -108,11 +111,11 @@ PROPS = {
         "node count. Termination of the remaining loops and running time are value-dependent and not decided.",
     },
     "C07": {
-        "rules": ["G2r", "G1r", "A11"],
+        "rules": ["G2r", "G1r", "A11", "W7"],
         "claim": "Decides the no-panic clause of C07 over everything reachable from execute_current_instruction and the 55 instruction "
         "functions (runtime, traits helpers, both data impls, SimpleNumber): every panic-capable site is in the reviewed allow-list "
         "with the reason it cannot fire, and every recursive cycle is allow-listed with its depth bound or reported. Value "
-        "reachability of an allow-listed site is by review, stated per site in allow/panic_sites.json. Recursive cycles are classified depth-bounded (a parameter tested against a limit with an unconditional exit, every recursive call passes it + k) or unbounded, so a change that stops counting depth turns a recorded finding into a new one. Capacity requests (Vec::with_capacity, reserve, vec![x; n], resize) are panic-capable sites too: a length taken from a value can exceed isize::MAX bytes.",
+        "reachability of an allow-listed site is by review, stated per site in allow/panic_sites.json. Recursive cycles are classified depth-bounded (a parameter tested against a limit with an unconditional exit, every recursive call passes it + k) or unbounded, so a change that stops counting depth turns a recorded finding into a new one. Capacity requests (Vec::with_capacity, reserve, vec![x; n], resize) are panic-capable sites too: a length taken from a value can exceed isize::MAX bytes. Also (W7, cursor discipline): a BasicGarnishData block's cursor is advanced only by one under that block's own capacity test whose full side reallocates that block first, by n only under a test that n cells fit, or shrunk - so no heap index computed from a cursor falls outside its block.",
     },
     "C13": {
         "rules": ["A3", "T2", "A8", "A7", "A9", "D8"],
@@ -139,7 +142,7 @@ PROPS = {
         "handed the Integer's address). Radix parsing and round-trips are value-level and not decided. Also (N5): the literal parsers hand a parsed integer to the number type only through a conversion whose From impl does not narrow with an `as` cast (an integer literal outside i32 becomes a float, it does not wrap). A CharList(n) header written before a run of Char cells counts the very string whose characters are written (D1c).",
     },
     "C15": {
-        "rules": ["D2", "D3", "W1", "W2", "D3b", "W6"],
+        "rules": ["D2", "D3", "W1", "W2", "D3b", "W6", "W7"],
         "claim": "Decides four structural clauses of C15: (D2) every index/slice of BasicGarnishData's raw heap vector is rebased on a "
         "StorageBlock.start (followed through locals, parameters to their call sites, struct fields to their initialisers); (D3) the six "
         "push_to_*_block siblings and the six copy stanzas of reallocate_heap each use one block in every role and agree on the "
@@ -147,7 +150,7 @@ PROPS = {
         "SimpleGarnishData's value list is append-only; (W2) every hand-written Hash impl inside the key of SimpleGarnishData's hash-keyed "
         "constant table feeds the hasher a loss-free encoding of the whole payload (no narrowing cast, rounding, or ignored payload), "
         "the necessary condition for 'a different constant gets a different address' since cache_add never compares the stored value. "
-        "Correctness for every interleaving/growth policy is not decided. Also (D3b): every returning path through reallocate_heap that installs new extents for one block installs them for all six (no shortcut that moves some blocks only). The same (W6) under this property: a returned address is an address written.",
+        "Correctness for every interleaving/growth policy is not decided. Also (D3b): every returning path through reallocate_heap that installs new extents for one block installs them for all six (no shortcut that moves some blocks only). The same (W6) under this property: a returned address is an address written. Also (W7): a block's cursor never passes its size (by-one advance under that block's capacity test, by-n advance under a fit test), so a later push cannot land in the neighbouring table's cells.",
     },
     "C16": {
         "rules": ["G4", "T14", "D9", "G4c"],
@@ -211,7 +214,7 @@ PROPS = {
         "as when built alone is not decided. Also (W2): the hash that alone keys SimpleGarnishData's constant table separates every two numbers the type distinguishes (per-variant feeds or the discriminant), so a later program's literal cannot be handed an earlier program's different constant.",
     },
     "C06": {
-        "rules": ["A1", "A6", "D6", "T8", "A11"],
+        "rules": ["A1", "A6", "D6", "T8", "A11", "D7", "T11"],
         "claim": "Decides the per-instruction clause of C06: on every Ok-returning path of each of the 55 instruction functions "
         "(path-partitioned abstract interpretation of their MIR against the GarnishData contract, callees summarised bottom-up) the "
         "operand-stack, value-stack and frame deltas and the jump result are the fixed constants of spec/arity.json - binary -2+1, "
@@ -224,16 +227,16 @@ PROPS = {
         "each (current frame, current register) state is decoded by pop_frame into the same state, variant by variant (writer/reader "
         "tables extracted from both matches), so a popped frame returns to its parent; and that chain survives a compaction in the middle of a call: the copy pass of optimize() rebuilds every "
         "cell as the variant it matched (T8: a FrameRegister is not written back as a FrameIndex), with the reference fields the tracing pass followed. "
-        "The dynamic depth of whole programs is not decided. Also (A11): the work-list helpers whose net effect A1 takes on trust (the concatenation walker, the equality work list) return Ok only after leaving a `get_register_len() > mark` test on its exit edge and pop only inside such a guard, so they neither leave borrowed operands behind nor pop their caller's.",
+        "The dynamic depth of whole programs is not decided. Also (A11): the work-list helpers whose net effect A1 takes on trust (the concatenation walker, the equality work list) return Ok only after leaving a `get_register_len() > mark` test on its exit edge and pop only inside such a guard, so they neither leave borrowed operands behind nor pop their caller's. Also (D7): only the else-chain handler forwards a node's conditional_parent - a conditional wrongly marked as chain member loses its fall-through PutValue and the enclosing jump then runs with one operand too few; and (T11): every root is closed by its end-instruction list, the end instruction being skipped only when the identical pair was already emitted by this root and no join point of an else chain continues at the next instruction (otherwise the join aliases the next root and a branch re-enters itself, growing the operand stack forever).",
     },
     "C08": {
-        "rules": ["A4", "A5", "A1", "G3", "T2"],
+        "rules": ["A4", "A5", "A1", "G3", "T2", "G3b"],
         "claim": "Decides the structural clauses of C08 on all instruction functions: on every path the host's defer_op is called at most "
         "once, with the Instruction constant that dispatches to that function, with (type, address) of the left operand then the "
         "right operand in source order (A4, A5); after a declining host exactly one unit is pushed and after an accepting host none "
         "(A1 arity on the declined / accepted edges); and for every one of the 21x21 operand type pairs of every instruction function "
         "the dedicated UnsupportedOpTypes error cannot reach the function's Err return (G3). Other error sources (data-impl errors) "
-        "are not decided. Also (A4 unit-without-offer): in a function that defers undefined combinations, no path answers unit having neither asked the host nor read / built any value (flags-only interpretation); `type_cast`'s defined cast of unit is the one reviewed exception. A declined offer is answered with the unit value made by add_unit on every path, never with a placeholder address (A4 declined-without-unit).",
+        "are not decided. Also (A4 unit-without-offer): in a function that defers undefined combinations, no path answers unit having neither asked the host nor read / built any value (flags-only interpretation); `type_cast`'s defined cast of unit is the one reviewed exception. A declined offer is answered with the unit value made by add_unit on every path, never with a placeholder address (A4 declined-without-unit). Also (G3b, offer matrix): for every deferring instruction and every tuple of the 21 operand types, abstract interpretation of the handler under that type assumption shows an Ok outcome without a defer_op offer only for the tuples the language defines (spec/defined_operands.json) - so no undefined combination is answered (with unit or anything else) without the host having been asked.",
     },
     "C10": {
         "rules": ["T4", "T9", "A1", "T11"],
@@ -253,7 +256,7 @@ PROPS = {
         "Counts and order across a whole program are not decided. Also (W5): every function that builds a SimpleGarnishData from another one carries over each function-pointer field (resolver, op handler), so the documented callbacks still fire on a clone. BasicGarnishData's add_* / parse_add_* return the address a store primitive returned for the value they wrote, never an address computed from stored indices (W6) - the operand of the Resolve the builder emits must stay a symbol.",
     },
     "C09": {
-        "rules": ["N1", "N2", "N3", "W2", "N6"],
+        "rules": ["N1", "N2", "N3", "W2", "N6", "N7"],
         "claim": "Decides the no-wrap/no-trap/finiteness clauses of C09 on the code of impl GarnishNumber for SimpleNumber and its helpers: "
         "no raw or unchecked integer arithmetic, every overflow flag is branched on, no saturating float->int cast, every Float "
         "built from an arithmetic result is dominated by a test excluding NaN and +-inf; and (W2) the result an operation stores reads "
